@@ -33,7 +33,7 @@ GCC = '/usr/bin/gcc'
 h = G.h
 
 TGEN_C = dict(clamp_subscripts=False, p_lower=0.35, p_step=0.3, p_int=0.01, p_mod=0.06, p_intdiv=0.1, p_pow=0.0,
-              p_local_arrays=0.0, int_calls=False, p_nary=0.0)
+              p_local_arrays=0.0, int_calls=False, p_nary=0.35)
 
 
 # ====================================================================== class predicates (FIR side)
@@ -114,19 +114,18 @@ def known_loop_bound_modified(prog):
 
 
 def known_empty_body(prog):
-    """the routine has no statement at all: generate_c_kernel does `kernel.body.prepend(…)` on a body that is None"""
+    """(repaired, no longer a class: kept as a generator predicate) the routine has no statement at all — before the fix
+    generate_c_kernel did `kernel.body.prepend(…)` on a body that is None"""
     return len(G.unit_of(prog)[4]) == 0
 
 
 def known_minmax_variadic(prog):
-    """MIN / MAX with more than two arguments: the names are mapped to the binary C functions fmin / fmax, `fmin(a, b, c)` does
-    not compile"""
+    """(repaired, no longer a class: kept as a generator predicate) MIN / MAX with more than two arguments — before the fix
+    `fmin(a, b, c)` was printed, which does not compile; now the calls are nested pairwise"""
     return any(h(e) == 'call' and str(e[1]) in ('min', 'max') and len(e) > 4 for e in G.all_exprs(prog))
 
 
 PROG_CLASSES = [
-    ('c-empty-body', known_empty_body),
-    ('c-minmax-variadic', known_minmax_variadic),
     ('c-int-cast', known_int_cast),
     ('c-loop-bound-modified', known_loop_bound_modified),
     ('c-mod-unparenthesised', known_mod_factor),
@@ -764,8 +763,12 @@ class C35(Prop):
             if k % 10 == 8:
                 cfg.update(p_nested=0.5, int_calls=True, clamp_subscripts=True)
             prog, inputs = G.gen_routine(rng, cfg)
+            if k % 30 == 7:
+                # a routine without any executable statement (intent(out) dummies stay undefined: wildcards of the comparison)
+                u = prog[2]
+                prog = fir.canon([prog[0], prog[1], u[:4] + [[]]])
             cls = classify_prog(prog)
-            c = Case([A('prog'), prog] + inputs, stream='prog', nontrivial=cls is None)
+            c = Case([A('prog'), prog] + inputs, stream='prog-empty' if known_empty_body(prog) else 'prog', nontrivial=cls is None)
             reqs.append(c)
             yield c
         # compile and run everything in parallel now; the oracle looks the results up by request line
